@@ -16,13 +16,15 @@ FILES = {"v1": os.path.join(T, "typedef.o"), "v2": os.path.join(T, "enum.o"), "v
 # queries yield integers/strings only, so that records are fully predictable from library renderings
 QUERIES_NOFILE = ["1", "(1, 2, 3)", "!()", "1 2", '"a" "b" "c"', "1 )", "0x10 0o7 0b1", "(1, 2, drop drop)", "(drop, 1)", '(1, 2) "x" add', "[1, 2] elem hex",
                   '"%( (1, 2) %)-%s"' , "(1, 2, 3) if ?2 then (swap) else ()", "", "dup", "dup dup", "(|A| A A)", "(|A B| B A)", "type", "(|A| A (1, 2) add)",
+                  # stacks of different depths in one run, deeper ones first
+                  "(2 3, 4)", "(1 2 3, 4, 5 6, 7)", '("a" "b", "c")',
                   # several lines, line comments with code after them, a line break inside a literal, a #! line (all three ways of giving the query)
                   "1 // x\n2\nadd", "#!/usr/bin/dwgrep -f\n1 2", '"a\nb" length', "(1,\n2)\n// done", "1 # one\n(2, 3) /* c\nd */ add",
                   # raising depends on the argument: some combinations raise after k results, the ones after them do not
                   "(|A| (A, A (== 1) drop drop))", "(|A| (A, A, A (== 2) drop drop))", "(|A| (A (== 1) drop drop, A))", '(|A| (A, A (== "p") drop drop))']
 QUERIES_FILE = ["entry offset", "entry ?TAG_typedef offset", "entry ?TAG_base_type name", "!()", "unit offset", "[entry] length", "entry offset (> 0x20)",
                 "entry ?root drop drop", "(|Dw| Dw entry offset)", "entry name", "1 )", "entry @AT_byte_size", "(|Dw| 1)", "entry ?root offset swap drop",
-                "(|Dw| (1, 2))", "entry offset 1 add drop drop drop",
+                "(|Dw| (1, 2))", "entry offset 1 add drop drop drop", "(|Dw| (1 2, 3))", "entry ?root (offset 1, offset)",
                 # results that are DWARF values: DIEs with their attributes, attributes with one / several / no values, units, location
                 # expressions and their operations, address sets, sequences of all those, the Dwarf itself
                 "entry", "unit", "entry attribute", "entry @AT_type", "[entry]", "entry ?TAG_typedef", "(|Dw| Dw)", "entry @AT_location",
